@@ -163,28 +163,34 @@ func (a *AST) ToDFA() *auto.DFA {
 		return p.Equal(q)
 	})
 
+	// The end-marker is the last position of the syntax tree for (r)µ.
+	// It is told apart by its position, not by its character, since the regular expression r may contain that character too.
+	end := a.lastPos
+
 	// Initialize Dstates to contain only the firstpos(n0), where n0 is the root of syntax tree for (r)µ
 	Dstates.Enqueue(a.Root.firstPos())
 
 	for S, i := Dstates.Dequeue(); i >= 0; S, i = Dstates.Dequeue() {
-		for c := range a.charToPos { // for each input symbol c
-			if c != endMarker {
-				// Let U be the union of followpos(p) for all p in S that correspond to c
-				U := Poses{}
-				for _, p := range S {
-					if a.posToChar[p] == c {
-						U = U.Union(a.followPos(p))
-					}
-				}
-
-				// If U is not in Dstates, add U to Dstates
-				j := Dstates.Contains(U)
-				if j == -1 {
-					j = Dstates.Enqueue(U)
-				}
-
-				dfa.Add(auto.State(i), auto.Symbol(c), auto.State(j))
+		for c, ps := range a.charToPos { // for each input symbol c
+			if len(ps) == 1 && ps[0] == end {
+				continue // the end-marker is not an input symbol
 			}
+
+			// Let U be the union of followpos(p) for all p in S that correspond to c
+			U := Poses{}
+			for _, p := range S {
+				if p != end && a.posToChar[p] == c {
+					U = U.Union(a.followPos(p))
+				}
+			}
+
+			// If U is not in Dstates, add U to Dstates
+			j := Dstates.Contains(U)
+			if j == -1 {
+				j = Dstates.Enqueue(U)
+			}
+
+			dfa.Add(auto.State(i), auto.Symbol(c), auto.State(j))
 		}
 	}
 
@@ -192,11 +198,9 @@ func (a *AST) ToDFA() *auto.DFA {
 	dfa.Final = auto.NewStates()
 
 	for i, S := range Dstates.Values() {
-		for _, f := range a.charToPos[endMarker] {
-			if S.Contains(f) {
-				dfa.Final.Add(auto.State(i))
-				break // The accepting states of D are all those sets of positions that include the position of the end-marker
-			}
+		// The accepting states of D are all those sets of positions that include the position of the end-marker
+		if S.Contains(end) {
+			dfa.Final.Add(auto.State(i))
 		}
 	}
 
